@@ -109,7 +109,7 @@ def readFinish (collected : Res (JObj × Lru Rev (List JVal))) : Res (JVal × Lr
   | .panic m => .panic m
   | .ok (pool, c) =>
     match objGet ROOT_ID pool with
-    | none => .panic "root_object_not_found"
+    | none => .err "root_object_not_found"
     | some rootObj =>
       match unflatten (unflattenFuel pool rootObj) pool rootObj with
       | .ok _ v => (match v with
